@@ -3,7 +3,7 @@ from props import lifecycle
 
 
 def check(run):
-    return lifecycle.check(run, "C11", ["stopstates", "stop", "stop2", "general", "long"])
+    return lifecycle.check(run, "C11", ["stopstates", "stop-storm", "stop", "stop2", "general", "long"])
 
 
 def replay(run, path):
